@@ -391,3 +391,54 @@ func RenderFE(fe string, root *Node, logical Val) (*Rendered, error) {
 	}
 	return r, nil
 }
+
+// JSONOf renders a value as JSON text with the map front end's keys (zog tag / schema key).
+func JSONOf(n *Node, v Val, sb *strings.Builder) error {
+	return jsonOfLoose(v, sb)
+}
+
+// jsonOfLoose renders any plain Val as JSON, following the value rather than a schema.
+func jsonOfLoose(v Val, sb *strings.Builder) error {
+	switch v.T {
+	case "nil", "":
+		sb.WriteString("null")
+	case "map":
+		sb.WriteByte('{')
+		for i, kv := range v.M {
+			if i > 0 {
+				sb.WriteByte(',')
+			}
+			kb, _ := json.Marshal(kv.K)
+			sb.Write(kb)
+			sb.WriteByte(':')
+			if err := jsonOfLoose(kv.V, sb); err != nil {
+				return err
+			}
+		}
+		sb.WriteByte('}')
+	case "list", "strlist", "intlist":
+		sb.WriteByte('[')
+		for i, e := range v.L {
+			if i > 0 {
+				sb.WriteByte(',')
+			}
+			if err := jsonOfLoose(e, sb); err != nil {
+				return err
+			}
+		}
+		sb.WriteByte(']')
+	case "string":
+		b, _ := json.Marshal(v.S)
+		sb.Write(b)
+	case "time":
+		b, _ := json.Marshal(mustTime(v.S).Format(time.RFC3339Nano))
+		sb.Write(b)
+	case "int", "int32", "int64", "bool":
+		sb.WriteString(v.S)
+	case "float32", "float64":
+		sb.WriteString(strconv.FormatFloat(parseFloat(v.S, 64), 'g', -1, 64))
+	default:
+		return fmt.Errorf("cannot render %s as JSON", v.T)
+	}
+	return nil
+}
